@@ -18,7 +18,7 @@ func init() {
 		Explanation: "Decides, for every write site in the anchored controllers, that the guard against foreign controllers is present on every path: (R2.1) every Applicator.Apply of a child object carries MustBeControllableBy / ConnectionSecretMustBeControllableBy keyed on the owner's GetUID() (exceptions are listed by symbol with a reason); " +
 			"(R2.2) both garbage collectors reach Update/Delete only over the 'no controller or our UID' edges of a test on the very object written; (R2.3) observation stores only such objects; (R2.4) XRD teardown deletes the CRD only on WasCreated ∧ IsControlledBy(crd, d); " +
 			"(R2.5) the establisher's controlling Update needs ok(AddControllerReference) on owner references copied from the object whose resourceVersion is written, and that snapshot is not touched between validation and the update; (R2.6) the claim secret is written only on the edge where the source secret's controller UID equals the XR's; " +
-			"(R2.7) every pipeline-composed object passed ok(RenderComposedResourceMetadata), which ends in AddControllerReference(AsController(ref to the XR)). (R2.9) the server-side-apply field manager of composed resources hashes the XR's name and its API group (GroupKind): two XRs never look like one applier to the API server. The chain the claim reconciler calls its connection propagators through is part of R2.0's scope (a refusal must surface).",
+			"(R2.7) every pipeline-composed object passed ok(RenderComposedResourceMetadata), which ends in AddControllerReference(AsController(ref to the XR)). (R2.9) the server-side-apply field manager of composed resources hashes the XR's name and its API group (GroupKind): two XRs never look like one applier to the API server. The chain the claim reconciler calls its connection propagators through is part of R2.0's scope (a refusal must surface). R2.3 also requires that the observer's controller test examines the object as last read (no Get into it after the test).",
 		NotDecided:  []string{"the API server's rejection of a second controller reference under server-side apply", "byte-for-byte equality of the untouched foreign object", "runtime objects (Deployment/Service/ServiceAccount) applied by the package runtime hooks and the manager's history-GC delete: not among the placements the property enumerates"},
 		Assumptions: []string{"crossplane-runtime's Applicator honours MustBeControllableBy", "meta.AddControllerReference fails when a different controller exists"},
 	})
